@@ -798,6 +798,15 @@ namespace sim
                   const bool ok = top->cls == RC::MUST || top->cls == RC::RAISE || top->cls == RC::W_LIMIT_BYTES || top->cls == RC::W_LIMIT_DEPTH;
                   if( !ok ) {
                      cx.viol( "C08.raise", head_name( top->rule ), i, "raise for " + short_name( e.rule ) + " inside " + short_name( top->rule ) + ", which is neither a must-context, a raise rule nor a limit" );
+                     cx.viol( "C05.first", "blame:" + head_name( top->rule ), i, "global failure blames " + short_name( e.rule ) + " from inside " + short_name( top->rule ) + ", which does not state that this rule must match" );
+                  }
+                  else if( top->cls == RC::MUST ) {
+                     // must< ..., R, ... > blames the R that failed: the blamed rule is one of the must rule's own arguments
+                     const std::string mn = rule_name( top->rule );
+                     const std::size_t lt = mn.find( '<' );
+                     if( lt == std::string::npos || mn.find( rule_name( e.rule ), lt ) == std::string::npos ) {
+                        cx.viol( "C05.first", "blame:" + head_name( top->rule ), i, "global failure inside " + short_name( top->rule ) + " blames " + short_name( e.rule ) + ", which is not one of the rules it requires" );
+                     }
                   }
                }
                break;
